@@ -308,7 +308,8 @@ func caseReport(post bool, s scenario) {
 		out.Note("no-counters-at-all")
 	}
 
-	crand.Reader = &CycleReader{Data: RandBytesFor(rnd, m)}
+	// a second call of computeRandom within the run would see a different X
+	crand.Reader = &CycleReader{Data: append(RandBytesFor(rnd, m), RandBytesFor(rnd, m^(1<<uint(rnd.Intn(52))))...)}
 	u := upload.VerifNewUploader(dir, "http://127.0.0.1:1", start, ucfg, cfgVersion, nil)
 	if _, err := u.Reports(); err != nil {
 		panic(err)
